@@ -81,7 +81,7 @@ RULES = {
            "length prefixes 2^30, 2^30+1, u32::MAX, single-byte corruption), signed entries (every truncation, corruption, identifier "
            "lengths 0..69, random strings), protocol messages, head reports and tickets, capabilities / filters / policies / queries. "
            "non-trivial = a real, well-formed value that was round-tripped; distinct = hash of its encoding.",
-    "C10": "script mode: every sequence of length <=3 (quick) / <=4 over 13 adversarial frames, against the initiator and against the "
+    "C10": "script mode: every sequence of length <=3 (quick) / <=4 over 14 adversarial frames, against the initiator and against the "
            "acceptor with 4 accept decisions (exhaustive per run when all shards finish; evidence counts the sequences done). faults "
            "mode: generated pairs x every frame index x {close replica, sync off, actor shutdown, cut, cut inside frame} x side. "
            "shutdown-race mode: 2..6 clients issuing requests while the actor is shut down. non-trivial = every sequence / pair with >=3 frames; distinct = hash.",
